@@ -395,6 +395,9 @@ class PathMgr:
         saved = (self.decisions, self.pos, self.pending, dict(self.known_cls), dict(self.hint_cls),
                  self._solver_bg, set(self._bg_done), set(self.classes_used), len(self.dict_probes),
                  len(self.attr_reads), self.depth, list(self.exc_stack), len(self.writes))
+        learnt = (dict(self.known_cls), dict(self.hint_cls), dict(self.canon_map), dict(self.eq_static),
+                  dict(self.kind_hint))
+        cache_keys = set(self.global_cache)
         sub_pending = [[]]
         results = []
         axioms = []
@@ -425,11 +428,18 @@ class PathMgr:
                     self._solver_bg = bg_mark
                     del self.pc[base:]
                     del self.pc_axiom[base:]
+                    # whatever was learnt from the GUARDS of this sub-path (exact classes, canonical terms,
+                    # static equalities) holds on this sub-path only
+                    self.known_cls, self.hint_cls = dict(learnt[0]), dict(learnt[1])
+                    self.canon_map, self.eq_static = dict(learnt[2]), dict(learnt[3])
+                    self.kind_hint = dict(learnt[4])
                     # axioms are valid on every path: keep them for the sibling sub-paths and the caller
                     for c in new_ax:
                         if c.get_id() not in seen_ax:
                             seen_ax.add(c.get_id())
                             self._add_pc(c, axiom=True)
+                    learnt = (dict(self.known_cls), dict(self.hint_cls), dict(self.canon_map), dict(self.eq_static),
+                              dict(self.kind_hint))
                     base = len(self.pc)
                     if pure:
                         # a pure clause only writes cells of objects it allocated itself: keep those stores
@@ -442,7 +452,10 @@ class PathMgr:
                         keep_st.ghost = dict(saved_st.ghost)
                         saved_st = keep_st
                     self.st.restore(saved_st)
-                    self.known_cls, self.hint_cls = dict(saved[3]), dict(saved[4])
+                    if not pure:
+                        # objects allocated by the sub-path are gone with its heap: forget cached references
+                        for gk in [gk for gk in self.global_cache if gk not in cache_keys]:
+                            del self.global_cache[gk]
                     self.depth, self.exc_stack = saved[10], list(saved[11])
                     del self.writes[saved[12]:]
         finally:
@@ -473,6 +486,17 @@ class PathMgr:
             return z3.BoolVal(False)
         return smt.simp(z3.Or(*disj))
 
+    @staticmethod
+    def _flat_conj(d):
+        out, todo = [], [d]
+        while todo:
+            y = todo.pop()
+            if z3.is_and(y):
+                todo.extend(y.children())
+            else:
+                out.append(y)
+        return out
+
     def _learn(self, c) -> None:
         """record class hints from isinstance facts that became part of the pc"""
         todo = [c]
@@ -480,6 +504,17 @@ class PathMgr:
             x = todo.pop()
             if z3.is_and(x):
                 todo.extend(x.children())
+                continue
+            if z3.is_or(x) and x.num_args() <= 16:
+                # a merged clause Or(And(..), And(..)): what every disjunct states holds
+                common = None
+                for d in x.children():
+                    cs = {c.get_id(): c for c in (self._flat_conj(d))}
+                    common = cs if common is None else {i: c for i, c in common.items() if i in cs}
+                    if not common:
+                        break
+                if common:
+                    todo.extend(common.values())
                 continue
             if z3.is_eq(x) and x.arg(0).sort() == smt.I:
                 # cls_of(r(t)) == <class id>: exact class of t
